@@ -173,6 +173,11 @@ func c14Run(u *vfUnit) {
 					id++
 					perHandle[h] = append(perHandle[h], vfPkt{Type: rfRead, ID: id, Handle: handles[h], Off: 0, Len: 16})
 				}
+				if w%5 == 2 {
+					// a size query on the handle in the middle of the pipeline (served by another worker than the reads and writes)
+					id++
+					perHandle[h] = append(perHandle[h], vfPkt{Type: rfFstat, ID: id, Handle: handles[h]})
+				}
 			}
 			id++
 			perHandle[h] = append(perHandle[h], vfPkt{Type: rfClose, ID: id, Handle: handles[h]})
@@ -263,6 +268,8 @@ func c14Run(u *vfUnit) {
 				}
 			case rfRead:
 				ok = p.Type == rfData || (p.Type == rfStatus && p.Code == rfEOF)
+			case rfFstat:
+				ok = p.Type == rfAttrs
 			}
 			if !ok {
 				u.Violation("pre-close-request-failed:"+kind.String()+":"+rfTypeName(req.Type), fmt.Sprintf("%s: %s, sent before the CLOSE of its handle, was answered %s", label, req, p), witness)
